@@ -32,13 +32,17 @@ template <typename T> T mk (int i);
 template <> int mk<int> (int i) { return i; }
 template <> std::string mk<std::string> (int i) { return std::string (static_cast<std::size_t> (3 + i % 40), static_cast<char> ('a' + i % 26)); }
 
+template <typename T> class fptr;
+template <typename T> static T *raw (T *p) { return p; }
+template <typename T> static T *raw (const fptr<T>& p);     // defined with the fancy pointer below
+
 template <typename V, typename T>
 static void same (const V& v, const std::vector<T>& s, const char *what, unsigned n)
 {
   ++g_checks;
   bool ok = v.size () == s.size () && v.empty () == s.empty ();
   for (std::size_t i = 0; ok && i < s.size (); ++i) ok = v[i] == s[i] && v.data ()[i] == s[i] && v.at (i) == s[i];
-  if (ok && ! s.empty ()) ok = v.front () == s.front () && v.back () == s.back () && &v.front () == v.data () && &v.back () == v.data () + (v.size () - 1);
+  if (ok && ! s.empty ()) ok = v.front () == s.front () && v.back () == s.back () && &v.front () == raw (v.data ()) && &v.back () == raw (v.data ()) + (v.size () - 1);
   if (ok)
   {
     // reverse iteration, const iteration
@@ -199,20 +203,20 @@ static void iterator_algebra (V& v, const char *what, unsigned n)
     { It t = v.end (); t -= (sz - i); IT_CHECK (t == a); t += (sz - i); IT_CHECK (t == v.end ()); }
     if (i < sz)
     {
-      IT_CHECK (&*a == v.data () + i);
-      IT_CHECK (&*ca == cv.data () + i);
-      IT_CHECK (&v.begin ()[i] == v.data () + i);
-      IT_CHECK (&v.cbegin ()[i] == cv.data () + i);
-      IT_CHECK (a.operator-> () == v.data () + i);
-      IT_CHECK (&(v.end ()[i - sz]) == v.data () + i);
+      IT_CHECK (&*a == raw (v.data ()) + i);
+      IT_CHECK (&*ca == raw (cv.data ()) + i);
+      IT_CHECK (&v.begin ()[i] == raw (v.data ()) + i);
+      IT_CHECK (&v.cbegin ()[i] == raw (cv.data ()) + i);
+      IT_CHECK (raw (a.operator-> ()) == raw (v.data ()) + i);
+      IT_CHECK (&(v.end ()[i - sz]) == raw (v.data ()) + i);
       { It t = a; It r = t++; IT_CHECK (r == a); IT_CHECK (t - a == 1); It q = ++r; IT_CHECK (q == t); IT_CHECK (r == t); }
-      IT_CHECK (&*(v.rbegin () + (sz - 1 - i)) == v.data () + i);
-      IT_CHECK (&*(v.rend () - (i + 1)) == v.data () + i);
+      IT_CHECK (&*(v.rbegin () + (sz - 1 - i)) == raw (v.data ()) + i);
+      IT_CHECK (&*(v.rend () - (i + 1)) == raw (v.data ()) + i);
     }
     if (i > 0)
     {
       It t = a; It r = t--; IT_CHECK (r == a); IT_CHECK (a - t == 1); It q = --r; IT_CHECK (q == t); IT_CHECK (r == t);
-      CIt ct = ca; --ct; IT_CHECK (&*ct == cv.data () + (i - 1));
+      CIt ct = ca; --ct; IT_CHECK (&*ct == raw (cv.data ()) + (i - 1));
     }
     for (D j = 0; j <= sz; ++j)
     {
@@ -227,7 +231,7 @@ static void iterator_algebra (V& v, const char *what, unsigned n)
       IT_CHECK (a + (j - i) == b);     IT_CHECK (b - (j - i) == a);     IT_CHECK ((j - i) + a == b);
       { It t = a; t += (j - i); IT_CHECK (t == b); t -= (j - i); IT_CHECK (t == a); }      // offsets of both signs
       { CIt t = ca; t -= (i - j); IT_CHECK (t == cb); t += (i - j); IT_CHECK (t == ca); }
-      if (j < sz) { IT_CHECK (&a[j - i] == v.data () + j); IT_CHECK (&ca[j - i] == cv.data () + j); }
+      if (j < sz) { IT_CHECK (&a[j - i] == raw (v.data ()) + j); IT_CHECK (&ca[j - i] == raw (cv.data ()) + j); }
     }
   }
 #undef IT_CHECK
@@ -245,6 +249,160 @@ static void iterator_scenarios (void)
     if (sz > 1) { v.erase (v.begin ()); iterator_algebra (v, "after erase", N); }
     v.shrink_to_fit (); iterator_algebra (v, "after shrink_to_fit", N);
   }
+}
+
+// a minimal FANCY POINTER (a class type wrapping T*) and an allocator handing it out: small_vector_iterator<Pointer>,
+// to_address / pointer_traits, the non-launder dereference branches and every pointer computation of the container
+// then run through a user-defined pointer type instead of T*
+template <typename T>
+class fptr
+{
+  T *p;
+public:
+  typedef T element_type;
+  typedef std::ptrdiff_t difference_type;
+  typedef typename std::remove_cv<T>::type value_type;
+  typedef T& reference;
+  typedef fptr pointer;
+  typedef std::random_access_iterator_tag iterator_category;
+#if defined (__cpp_lib_concepts) || __cplusplus >= 202002L
+  typedef std::contiguous_iterator_tag iterator_concept;
+#endif
+  template <typename U> using rebind = fptr<U>;
+  fptr () noexcept : p (nullptr) { }
+  fptr (std::nullptr_t) noexcept : p (nullptr) { }
+  fptr (T *q) noexcept : p (q) { }      // implicit, as the header requires of an allocator's pointer type (storage () returns T*)
+  // … and static_cast from (const) void*, as stack_temporary / heap_temporary use it
+  template <typename V, typename std::enable_if<std::is_same<V, void>::value && ! std::is_const<T>::value, int>::type = 0>
+  explicit fptr (V *q) noexcept : p (static_cast<T *> (q)) { }
+  template <typename V, typename std::enable_if<std::is_same<V, const void>::value && std::is_const<T>::value, int>::type = 0>
+  explicit fptr (V *q) noexcept : p (static_cast<T *> (q)) { }
+  // static_cast from the allocator's void pointer types (Cpp17Allocator requirements)
+  template <typename V, typename std::enable_if<std::is_void<V>::value && (std::is_const<T>::value || ! std::is_const<V>::value), int>::type = 0>
+  explicit fptr (const fptr<V>& o) noexcept : p (static_cast<T *> (o.get ())) { }
+  template <typename U, typename std::enable_if<std::is_convertible<U *, T *>::value && ! std::is_same<U, T>::value, int>::type = 0>
+  fptr (const fptr<U>& o) noexcept : p (o.get ()) { }
+  T *get () const noexcept { return p; }
+  T& operator* () const noexcept { return *p; }
+  T *operator-> () const noexcept { return p; }
+  T& operator[] (difference_type n) const noexcept { return p[n]; }
+  fptr& operator++ () noexcept { ++p; return *this; }
+  fptr operator++ (int) noexcept { fptr t (*this); ++p; return t; }
+  fptr& operator-- () noexcept { --p; return *this; }
+  fptr operator-- (int) noexcept { fptr t (*this); --p; return t; }
+  fptr& operator+= (difference_type n) noexcept { p += n; return *this; }
+  fptr& operator-= (difference_type n) noexcept { p -= n; return *this; }
+  friend fptr operator+ (fptr a, difference_type n) noexcept { return fptr (a.p + n); }
+  friend fptr operator+ (difference_type n, fptr a) noexcept { return fptr (a.p + n); }
+  friend fptr operator- (fptr a, difference_type n) noexcept { return fptr (a.p - n); }
+  friend difference_type operator- (fptr a, fptr b) noexcept { return a.p - b.p; }
+  friend bool operator== (fptr a, fptr b) noexcept { return a.p == b.p; }
+  friend bool operator!= (fptr a, fptr b) noexcept { return a.p != b.p; }
+  friend bool operator< (fptr a, fptr b) noexcept { return a.p < b.p; }
+  friend bool operator<= (fptr a, fptr b) noexcept { return a.p <= b.p; }
+  friend bool operator> (fptr a, fptr b) noexcept { return a.p > b.p; }
+  friend bool operator>= (fptr a, fptr b) noexcept { return a.p >= b.p; }
+  friend bool operator== (fptr a, std::nullptr_t) noexcept { return a.p == nullptr; }
+  friend bool operator!= (fptr a, std::nullptr_t) noexcept { return a.p != nullptr; }
+  friend bool operator== (std::nullptr_t, fptr a) noexcept { return a.p == nullptr; }
+  friend bool operator!= (std::nullptr_t, fptr a) noexcept { return a.p != nullptr; }
+  explicit operator bool () const noexcept { return p != nullptr; }
+  static fptr pointer_to (T& r) noexcept { return fptr (std::addressof (r)); }
+};
+
+template <> class fptr<void>
+{
+  void *p;
+public:
+  typedef void element_type; typedef std::ptrdiff_t difference_type; template <typename U> using rebind = fptr<U>;
+  fptr () noexcept : p (nullptr) { } fptr (std::nullptr_t) noexcept : p (nullptr) { } fptr (void *q) noexcept : p (q) { }
+  template <typename U> fptr (const fptr<U>& o) noexcept : p (o.get ()) { }
+  void *get () const noexcept { return p; }
+  explicit operator bool () const noexcept { return p != nullptr; }
+  friend bool operator== (fptr a, fptr b) noexcept { return a.p == b.p; }
+  friend bool operator!= (fptr a, fptr b) noexcept { return a.p != b.p; }
+  friend bool operator== (fptr a, std::nullptr_t) noexcept { return a.p == nullptr; }
+  friend bool operator!= (fptr a, std::nullptr_t) noexcept { return a.p != nullptr; }
+  friend bool operator== (std::nullptr_t, fptr a) noexcept { return a.p == nullptr; }
+  friend bool operator!= (std::nullptr_t, fptr a) noexcept { return a.p != nullptr; }
+};
+template <> class fptr<const void>
+{
+  const void *p;
+public:
+  typedef const void element_type; typedef std::ptrdiff_t difference_type; template <typename U> using rebind = fptr<U>;
+  fptr () noexcept : p (nullptr) { } fptr (std::nullptr_t) noexcept : p (nullptr) { } fptr (const void *q) noexcept : p (q) { }
+  template <typename U> fptr (const fptr<U>& o) noexcept : p (o.get ()) { }
+  const void *get () const noexcept { return p; }
+  explicit operator bool () const noexcept { return p != nullptr; }
+  friend bool operator== (fptr a, fptr b) noexcept { return a.p == b.p; }
+  friend bool operator!= (fptr a, fptr b) noexcept { return a.p != b.p; }
+  friend bool operator== (fptr a, std::nullptr_t) noexcept { return a.p == nullptr; }
+  friend bool operator!= (fptr a, std::nullptr_t) noexcept { return a.p != nullptr; }
+  friend bool operator== (std::nullptr_t, fptr a) noexcept { return a.p == nullptr; }
+  friend bool operator!= (std::nullptr_t, fptr a) noexcept { return a.p != nullptr; }
+};
+template <typename T> static T *raw (const fptr<T>& p) { return p.get (); }
+
+static long g_fancy_live = 0;   // blocks handed out by the fancy allocator and not yet returned
+template <typename T>
+struct fancy_alloc
+{
+  typedef T value_type;
+  typedef fptr<T> pointer;
+  typedef fptr<const T> const_pointer;
+  typedef std::size_t size_type;
+  typedef std::ptrdiff_t difference_type;
+  fancy_alloc () noexcept { }
+  template <typename U> fancy_alloc (const fancy_alloc<U>&) noexcept { }
+  pointer allocate (size_type n) { ++g_fancy_live; return pointer (static_cast<T *> (::operator new (n * sizeof (T)))); }
+  void deallocate (pointer p, size_type) noexcept { --g_fancy_live; ::operator delete (p.get ()); }
+};
+template <typename T, typename U> bool operator== (const fancy_alloc<T>&, const fancy_alloc<U>&) noexcept { return true; }
+template <typename T, typename U> bool operator!= (const fancy_alloc<T>&, const fancy_alloc<U>&) noexcept { return false; }
+
+template <typename T, unsigned N>
+static void fancy_scenario (std::size_t pre)
+{
+  typedef gch::small_vector<T, N, fancy_alloc<T>> V;
+  typedef std::vector<T> S;
+  const T a = mk<T> (1), b = mk<T> (2), c = mk<T> (3);
+  {
+    V v; S s;
+    for (std::size_t i = 0; i < pre; ++i) { v.push_back (mk<T> (static_cast<int> (30 + i))); s.push_back (mk<T> (static_cast<int> (30 + i))); }
+    same (v, s, "push_back (fancy pointer)", N);
+    iterator_algebra (v, "fancy pointer", N);
+    for (std::size_t p = 0; p <= s.size (); p += (s.size () > 2 ? s.size () / 2 : 1))
+    {
+      typename V::iterator it = v.insert (v.begin () + static_cast<std::ptrdiff_t> (p), a);
+      typename S::iterator is = s.insert (s.begin () + static_cast<std::ptrdiff_t> (p), a);
+      if (it - v.begin () != is - s.begin ()) fail ("insert returns a different position (fancy pointer)");
+      same (v, s, "insert (pos, x), fancy pointer", N);
+      it = v.insert (v.begin () + static_cast<std::ptrdiff_t> (p), static_cast<typename V::size_type> (3), b);
+      is = s.insert (s.begin () + static_cast<std::ptrdiff_t> (p), 3, b);
+      if (it - v.begin () != is - s.begin ()) fail ("insert (pos, n, x) returns a different position (fancy pointer)");
+      same (v, s, "insert (pos, n, x), fancy pointer", N);
+      it = v.insert (v.begin () + static_cast<std::ptrdiff_t> (p), s.begin (), s.begin () + (s.size () > 2 ? 2 : 0));
+      { S t (s.begin (), s.begin () + (s.size () > 2 ? 2 : 0)); is = s.insert (s.begin () + static_cast<std::ptrdiff_t> (p), t.begin (), t.end ()); }
+      same (v, s, "insert (pos, first, last), fancy pointer", N);
+    }
+    if (! s.empty ()) { v.erase (v.begin ()); s.erase (s.begin ()); same (v, s, "erase (pos), fancy pointer", N); }
+    if (s.size () > 2) { v.erase (v.begin () + 1, v.end () - 1); s.erase (s.begin () + 1, s.end () - 1); same (v, s, "erase (first, last), fancy pointer", N); }
+    v.resize (static_cast<typename V::size_type> (s.size () + 3), c); s.resize (s.size () + 3, c); same (v, s, "resize (n, x), fancy pointer", N);
+    v.reserve (static_cast<typename V::size_type> (2 * s.size () + 1)); same (v, s, "reserve, fancy pointer", N);
+    v.shrink_to_fit (); same (v, s, "shrink_to_fit, fancy pointer", N);
+    V w (v); same (w, s, "copy construction, fancy pointer", N);
+    V x (std::move (w)); same (x, s, "move construction, fancy pointer", N);
+    V y; y = v; same (y, s, "copy assignment, fancy pointer", N);
+    V z; z.push_back (a); z = std::move (y); same (z, s, "move assignment, fancy pointer", N);
+    V u { a, b }; S su { a, b }; u.swap (z); su.swap (s); same (u, su, "swap, receiver, fancy pointer", N); same (z, s, "swap, argument, fancy pointer", N);
+    u.assign (static_cast<typename V::size_type> (pre), b); su.assign (pre, b); same (u, su, "assign (n, x), fancy pointer", N);
+    u.assign (s.begin (), s.end ()); su.assign (s.begin (), s.end ()); same (u, su, "assign (first, last), fancy pointer", N);
+    u.append (s.begin (), s.end ()); su.insert (su.end (), s.begin (), s.end ()); same (u, su, "append (first, last), fancy pointer", N);
+    u.clear (); su.clear (); same (u, su, "clear, fancy pointer", N);
+    if (! s.empty ()) { z.pop_back (); s.pop_back (); same (z, s, "pop_back, fancy pointer", N); }
+  }
+  if (g_fancy_live != 0) { fail ("fancy-pointer allocator: " + std::to_string (g_fancy_live) + " block(s) not returned"); g_fancy_live = 0; }
 }
 
 // an element type WITHOUT assignment operators (std::vector accepts it for construction, push_back / emplace_back,
@@ -323,6 +481,10 @@ int main (void)
 {
   all<int> ();
   all<std::string> ();
+  for (std::size_t pre = 0; pre <= 7; pre += 1)
+  {
+    fancy_scenario<int, 0> (pre); fancy_scenario<int, 3> (pre); fancy_scenario<std::string, 0> (pre); fancy_scenario<std::string, 4> (pre);
+  }
   iterator_scenarios<int, 0> (); iterator_scenarios<int, 3> (); iterator_scenarios<int, 8> ();
   iterator_scenarios<std::string, 0> (); iterator_scenarios<std::string, 2> (); iterator_scenarios<std::string, 5> ();
   for (std::size_t pre = 0; pre <= 7; ++pre)
